@@ -35,9 +35,15 @@ CLAIMED = {
         note="Trusted: gzip/bz2/lz4/zstandard/fastavro as independent decoders. Short raw reads are applied to pipes-like sources (file objects, stdin) only. One known finding (single-shot peek on a short first raw read) is listed in KNOWN_FINDINGS.txt and matched counterfactually.",
         technique="deterministic simulation: seeded pipe/stdin delivery schedules over an exhaustive codec x container x naming matrix, fault-free run as reference model",
     ),
+    "C16": dict(
+        category="exploration", design_ref="DESIGN.md 5.4",
+        text="Deterministic simulation of the command-line tool: rdump.main runs in-process against sources on a simulated file system, each with its own fault (missing, empty, garbage, directory, truncated at a frame-relative offset, raw read error at call j, unreadable JSON line, stdin with a delivery schedule), and its output (stdout or -w targets in 15 forms incl. --split) is decoded independently and compared, in order, with a reference pipeline over lists: intact prefix per source -> selector predicate -> skip/count slice -> metadata overrides -> projection/exclusion -> timestamp expansion. Every placement of one or two faulty sources among two good ones is enumerated; option mixes, codecs and record sequences are sampled; compiled and interpreted selectors are both driven.",
+        note="Trusted: the reference pipeline (a few lines over lists) and the independent decoders (json, csv, line/text parsing). Selectors are limited to a sub-language with Python predicates; -c 0, duplicate -F names, Avro/SQLite targets and metadata of expanded records are outside the domain.",
+        technique="deterministic simulation: in-process rdump over fault-injected simulated sources and stdio, enumerated fault placements + seeded option mixes, reference list pipeline as oracle",
+    ),
 }
 
-BUILDING = {k: "simulation target per DESIGN.md; its check is still under construction and is therefore not claimed yet" for k in ("C16",)}
+BUILDING = {k: "simulation target per DESIGN.md; its check is still under construction and is therefore not claimed yet" for k in ()}
 
 NOT_APPLICABLE = {
     "C01": "pure encode/decode function of its input (value identity of the codec): no schedule, clock, fault or crash point for a simulator to own; its I/O side is simulated under C04/C11/C03",
